@@ -431,21 +431,19 @@ Proof.
   destruct (stored (sr (nd s))) as [[sn|]|]; auto.
   destruct (clear && (eidx (s_e1 sn) <=? applied (nd s))); auto.
   destruct (self_ver (nd s) <? s_ver sn); auto.
-  set (s1 := upd (fun n => n <| hist := s_hist sn |> <| enabled_ver := s_ver sn |>) s).
-  set (s2 := if clear then s1 else _).
-  assert (C2 : outs s2 = outs s).
-  { unfold s2. destruct clear; auto.
-    destruct (get_entries (log (nd s1)) (Some (eidx (s_e0 sn))) (Some 2) None) as [|a [|b [|c r]]]; auto.
-    destruct (entry_eqb a (s_e0 sn) && entry_eqb b (s_e1 sn)); auto. }
-  set (keep := match log (nd s2) with a :: b :: _ => _ | _ => false end).
-  set (s3 := if clear || negb keep then upd _ s2 else s2).
-  assert (C3 : outs s3 = outs s) by (unfold s3; destruct (clear || negb keep); auto).
-  set (s4 := upd (fun n => n <| applied := eidx (s_e1 sn) |>) s3).
-  assert (C4 : outs s4 = outs s) by (unfold s4; auto).
-  destruct (dyn (cf e)); [|rewrite C4; auto].
-  destruct (view_inv _ _ (view_update_cluster (filter (fun x => negb (self_is x (nd s4))) (s_cluster sn)) s4))
-    as (_ & _ & _ & _ & _ & _ & _ & _ & F & _ & _ & A).
-  rewrite F, A, C4. auto.
+  cbv zeta.
+  match goal with |- context [update_cluster ?l ?s4] => set (s5 := s4) end.
+  match goal with |- context [update_cluster ?l s5] => set (new := l) end.
+  assert (C5 : outs s5 = outs s).
+  { subst s5. repeat (match goal with |- context [if ?b then _ else _] => destruct b end); reflexivity. }
+  clearbody s5 new.
+  destruct (dyn (cf e)); [|rewrite C5; auto].
+  destruct (view_inv _ _ (view_update_cluster new s5)) as (_ & _ & _ & _ & _ & _ & _ & _ & F & _ & _ & A).
+  match goal with |- context [if ?b then apply_membership _ _ _ else _] => destruct b end.
+  - match goal with |- context [apply_membership false ?es ?u] =>
+      destruct (view_inv _ _ (view_apply_membership false es u)) as (_ & _ & _ & _ & _ & _ & _ & _ & F2 & _ & _ & A2) end.
+    rewrite F2, A2, F, A, C5. auto.
+  - rewrite F, A, C5. auto.
 Qed.
 
 Lemma fires_load_dump : forall P Q e clear, fires_only P Q (load_dump e clear).
@@ -706,20 +704,20 @@ Proof.
     destruct (done && load_dump_ok s7).
     + destruct (outs_load_dump e true s7) as [LF LA].
       apply K.
-      * destruct (view_inv _ _ (view_ae_commit c (Some (last_idx (log (nd (send_next_idx from None false true (load_dump e true s7))))))
-                                  (send_next_idx from None false true (load_dump e true s7))))
-          as (_ & _ & _ & _ & _ & _ & _ & _ & X & _).
-        rewrite X.
-        destruct (view_inv _ _ (view_send_next_idx from None false true (load_dump e true s7)))
-          as (_ & _ & _ & _ & _ & _ & _ & _ & Y & _).
-        now rewrite Y, LF.
-      * destruct (view_inv _ _ (view_ae_commit c (Some (last_idx (log (nd (send_next_idx from None false true (load_dump e true s7))))))
-                                  (send_next_idx from None false true (load_dump e true s7))))
-          as (_ & _ & _ & _ & _ & _ & _ & _ & _ & _ & _ & X).
-        rewrite X.
-        destruct (view_inv _ _ (view_send_next_idx from None false true (load_dump e true s7)))
-          as (_ & _ & _ & _ & _ & _ & _ & _ & _ & _ & _ & Y).
-        now rewrite Y, LA.
+      * cbv zeta.
+        match goal with |- context [ae_commit c ?v (send_next_idx from ?nx false true ?L)] =>
+          destruct (view_inv _ _ (view_ae_commit c v (send_next_idx from nx false true L)))
+            as (_ & _ & _ & _ & _ & _ & _ & _ & X & _);
+          destruct (view_inv _ _ (view_send_next_idx from nx false true L))
+            as (_ & _ & _ & _ & _ & _ & _ & _ & Y & _) end.
+        now rewrite X, Y, LF.
+      * cbv zeta.
+        match goal with |- context [ae_commit c ?v (send_next_idx from ?nx false true ?L)] =>
+          destruct (view_inv _ _ (view_ae_commit c v (send_next_idx from nx false true L)))
+            as (_ & _ & _ & _ & _ & _ & _ & _ & _ & _ & _ & X);
+          destruct (view_inv _ _ (view_send_next_idx from nx false true L))
+            as (_ & _ & _ & _ & _ & _ & _ & _ & _ & _ & _ & Y) end.
+        now rewrite X, Y, LA.
     + destruct done.
       * destruct (outs_load_dump e true s7) as [LF LA]. apply K.
         -- destruct (view_inv _ _ (view_ae_commit c None (load_dump e true s7))) as (_ & _ & _ & _ & _ & _ & _ & _ & X & _).
